@@ -44,7 +44,7 @@ def replay(args):
         seq += 1
         ev.update({"tid": tid, "seq": seq})
         for k, d in (("pos", 0), ("cache", ""), ("mod", ""), ("ndone", 0), ("pending", []), ("tops", []), ("children", {}), ("np", 0),
-                     ("kindof", []), ("raised", False)):
+                     ("kindof", []), ("raised", False), ("strict", True)):
             ev.setdefault(k, d)
         events.append(ev)
     children = ET.SHAPES[shape]
